@@ -320,7 +320,63 @@ RULES = {
 }
 
 
+def reuse_section(rep, rng, tier):
+    """One PyKdebugParser object, the same stream listed several times while the caller changes the filter
+    attributes in between: every listing must be the restriction by the CURRENT settings (no verdict, table or
+    generator state may survive from an earlier request)."""
+    from .. import streams
+    from .. import core
+    from ..impl import record_args
+    from pykdebugparser.pykdebugparser import PyKdebugParser
+    sec = rep.section('reuse')
+    sec['rule'] = ('one parser object x 3-5 successive requests on the same v2 stream with the filter attributes changed in '
+                   'between (tid / class / subclass / explicit class argument); each listing vs the model and vs the '
+                   'declarative predicate under the settings in force at that request')
+    n = 120 if tier == 'quick' else 3000
+    for _ in range(n):
+        items = gen_items(rng, rng.randrange(4, 14), False)
+        recs = [record_args(it[1], it[4], it[2], it[3]) for it in items if it[0] == 'E']
+        data = streams.v2_file([(7, 42, 'launchd')], recs)
+        p = PyKdebugParser()
+        steps = []
+        for _k in range(rng.randrange(3, 6)):
+            cfg = gen_cfg(rng, items)
+            cfg['proc'] = None
+            steps.append(cfg)
+        lines, gots, cases = [], [], []
+        for cfg in steps:
+            conv = tuple if cfg['tuple'] else list
+            p.filter_tid = cfg['tid']
+            p.filter_class = conv(cfg['classes'])
+            p.filter_subclass = conv(cfg['subs'])
+            fc_arg = None if cfg['fc_arg'] is None else conv(cfg['fc_arg'])
+            case = {'kind': 'v2', 'cfg': cfg, 'items': items}
+            try:
+                got = 'ok ' + show_listing(list(p.kevents(io.BytesIO(data), fc_arg))) + ' | '
+            except Exception as e:
+                got = 'err ' + core.err_name(e)
+            cases.append(case)
+            gots.append(got)
+            lines.append(line_fn(case))
+        model = core.drive(lines)
+        for case, got, m, ln in zip(cases, gots, model, lines):
+            sec['cases'] += 1
+            if got != m:
+                sec['mismatches'] += 1
+                if len(rep.first_diffs) < 10:
+                    rep.first_diffs.append({'section': 'reuse', 'line': ln[:1500], 'model': m[:600], 'impl': got[:600]})
+            r = oracle(case, got)
+            if r:
+                rep.add_failure(r[0].replace('filters:', 'filters:reuse-'), 'after earlier requests on the same parser object: '
+                                + r[1], {'section': 'reuse', 'steps': steps, 'items': items, 'failing_cfg': case['cfg']})
+            elif nontrivial(case, got):
+                sec['distinct_nontrivial'] += 1
+    if sec['mismatches']:
+        rep.broken.append('correspondence:reuse (%d of %d requests differ)' % (sec['mismatches'], sec['cases']))
+
+
 def correspondence(rep, rng, tier):
+    reuse_section(rep, rng, tier)
     for sec, kind in (('filters-v2', 'v2'), ('filters-mixed', 'stub'), ('filters-v3', 'v3')):
         run_section(rep, sec, gen_cases(rng, tier, kind), line_fn=line_fn, impl_fn=impl_fn, oracle_fn=oracle,
                     nontrivial_fn=nontrivial, kind_fn=kind_fn, rule=RULES[sec])
